@@ -337,7 +337,7 @@ class Exec:
         if isinstance(p, float):
             return repr(p)
         if isinstance(p, SInt):
-            return Atom(f"int:{z3.simplify(p.t)}", "int")
+            return Atom(f"int:{z3.simplify(p.t)}", "int", p.t)
         if isinstance(p, (SFloat, SNum)):
             return Atom(f"num:{z3.simplify(p.t)}", "num")
         if isinstance(p, Ref):
